@@ -200,8 +200,8 @@ class Policy:
         ast = self[sec][ptype]
         old_rules_index = []
 
-        for old_rule in old_rules:
-            if old_rule in ast.policy:
+        for i, old_rule in enumerate(old_rules):
+            if old_rule in ast.policy and old_rule not in old_rules[:i]:
                 old_rules_index.append(ast.policy.index(old_rule))
             else:
                 return False
